@@ -138,6 +138,31 @@ def affine_shape(ctx):
         ok_ = bool(mains) and all(any(lit[0] == 'T' and lit[1] in (D, Dl) for lit in l if len(lit) == 2) for l, v in mains)
         ctx.check(ok_, name + '#degenerate', 'zero %s handled before dividing' % div.split('(')[0],
                   '%s divides by a possibly zero %s' % (name, div), g, g.node)
+        # the other returns: the samples are handed back unchanged only where they already have the target (the statistic is
+        # zero AND the target is zero); nan only where the statistic is zero; nothing else
+        tgt = ('name', g.args()[0])
+        SL = ('call', ('name', 'list'), (('name', 'samples'),), ())
+        for l, v in rets2:
+            if (l, v) in mains:
+                continue
+            known = {}
+            for lit in l:
+                if len(lit) == 2 and lit[0] in ('T', 'F'):
+                    known[lit[1]] = lit[0] == 'T'
+            zero_stat = known.get(D) is False or known.get(Dl) is False
+            zero_tgt = known.get(tgt) is False
+            same = v in (('name', 'samples'), SL) or (v[0] == 'listcomp' and len(v[2]) == 1 and v[2][0][1] in (('name', 'samples'), SL) and not v[2][0][2]
+                                                       and v[1] in ((v[2][0][0],), (('call', ('name', 'float'), (v[2][0][0],), ()),)))
+            isnan = 'nan' in T.show(v)
+            ctx.stats['terms_compared'] += 1
+            if same:
+                ctx.check(zero_stat and zero_tgt, name + '#unchanged', 'samples returned unchanged only when both the %s and the target are zero' % div.split('(')[0],
+                          '%s returns the samples unchanged on a path that knows only %s: for a zero target and samples that are not degenerate the target is missed (they must collapse onto the mean)'
+                          % (name, [(k2[0], T.show(k2[1])[:40]) for k2 in l if len(k2) == 2]), g, g.node)
+            elif isnan:
+                ctx.check(zero_stat, name + '#nan', 'nan only for degenerate samples', '%s answers nan although the %s is not known to be zero' % (name, div.split('(')[0]), g, g.node)
+            else:
+                ctx.bad(name + '#other-return', '%s has a return that is neither the rescaled samples, the unchanged degenerate samples nor nan: %s' % (name, T.show(v)[:100]), g, g.node)
 
 
 def _ref(ctx, anchor, src, what):
